@@ -121,7 +121,9 @@ theorem afterData_created {st : St} {p : Path} {np : Str} {mode : Nat} {tm : Opt
   by_cases he : w = []
   · subst he
     simp only [List.isEmpty_nil, ↓reduceIte, List.length_nil]
-    simp [setData, hf, fileData, resize]
+    have h1 : fileData st.fs p = [] := by simp [fileData, hf]
+    rw [h1, setData_of_file hf]
+    simp [resize]
   · have hne : w.isEmpty = false := by simpa using he
     simp only [hne, Bool.false_eq_true, ↓reduceIte]
     have h1 : fileData st.fs p = [] := by simp [fileData, hf]
